@@ -366,6 +366,7 @@ class Normaliser:
             c4 = self._namedtuple_unpack(fn, mod)
             c5 = self._unroll_constant_tables(fn, mod, cls)
             c5 = self._fold_constant_ifs(fn) or c5
+            c5 = self._sink_table_loops(fn, mod, cls) or c5
             changed = changed or c1 or c2 or c3 or c4 or c5
             if not (c1 or c2 or c3 or c4 or c5):
                 break
@@ -632,6 +633,48 @@ class Normaliser:
                 cur.orelse = [node]
                 cur = node
         return [ast.copy_location(head, m)] if head is not None else None
+
+    def _sink_table_loops(self, fn: ast.AST, mod, cls) -> bool:
+        """if c: t = TABLE_A / elif d: t = TABLE_B / else: t = () ; for x in t: body  (a table chosen by
+        a helper, after inlining): the loop moves into each branch, over that branch's table.  Only
+        when `t` is read nowhere else."""
+        changed = False
+        for blk in list(self._blocks(fn)):
+            for i in range(len(blk) - 1):
+                chain, loop = blk[i], blk[i + 1]
+                if not (isinstance(chain, ast.If) and isinstance(loop, ast.For) and isinstance(loop.iter, ast.Name)
+                        and not loop.orelse):
+                    continue
+                t = loop.iter.id
+                leaves: list[list[ast.stmt]] = []
+
+                def collect(node: ast.If) -> bool:
+                    for branch in (node.body, node.orelse):
+                        if len(branch) == 1 and isinstance(branch[0], ast.If) and branch is node.orelse:
+                            if not collect(branch[0]):
+                                return False
+                        elif len(branch) == 1 and isinstance(branch[0], ast.Assign) and len(branch[0].targets) == 1 \
+                                and isinstance(branch[0].targets[0], ast.Name) and branch[0].targets[0].id == t \
+                                and self._const_table(branch[0].value, mod, cls) is not None:
+                            leaves.append(branch)
+                        else:
+                            return False
+                    return True
+                if not collect(chain) or len(leaves) < 2:
+                    continue
+                reads = [n for n in ast.walk(fn) if isinstance(n, ast.Name) and n.id == t and isinstance(n.ctx, ast.Load)]
+                if len(reads) != 1:
+                    continue
+                if any(isinstance(n, (ast.Break, ast.Return, ast.Yield, ast.YieldFrom)) for n in ast.walk(loop)):
+                    continue
+                for branch in leaves:
+                    lp = clone(loop)
+                    lp.iter = branch[0].value
+                    branch[:] = [lp]
+                del blk[i + 1]
+                changed = True
+                break
+        return changed
 
     def _fold_constant_ifs(self, fn: ast.AST) -> bool:
         """`if False: A else: B` (a defaulted flag parameter after inlining) is B"""
